@@ -266,3 +266,12 @@ package core
 //@ requires plClient != nil
 //@ fresh result
 //@ ensures [a-controller-over-exactly-the-given-parts] result != nil && result.opts == opts && result.ctClient == ctClient && result.plClient == plClient && result.ef == ef
+
+//@ func (*Controller).RunWhenMasterWithRestarts
+//@ props C20
+//@ site RunWhenMaster#1 as rm
+//@ stable-field c.ctClient c.plClient c.ctClient.JSONClient c.opts c.plClient.cli c.plClient.idFunc c.ef c.label
+//@ requires c != nil && c.ef != nil && ctx != nil && metrics.isMaster != nil && metrics.masterRuns != nil && metrics.masterCancels != nil
+//@ requires c.plClient != nil && c.plClient.cli != nil && c.plClient.idFunc != nil && c.ctClient != nil && c.ctClient.httpClient != nil
+//@ requires [options-from-a-validated-config] c.opts.FetcherOptions.BatchSize >= 1 && c.opts.FetcherOptions.EndIndex >= 0 && metrics.controllerStarts != nil
+//@ at rm assert [every-restart-is-this-controllers-master-elected-run-under-the-given-context] rm.c == c && rm.ctx == ctx
